@@ -862,7 +862,12 @@ static int resolve(sim_inst *I, const plan_op *po, sim_xop *x, int in_action)
 	case SOP_LESS:
 		if (!in_action || I->is_eof || I->did_less || I->did_textop || I->did_bufop)
 			return 0;
-		x->a = I->more_prefix + lmod(po->a, I->cur_len - I->more_prefix + 1);
+		if (!vt->text_is_array && I->more_prefix > 0 && !I->rejected && (po->a & 1))
+			/* with %pointer the text kept by yymore() is still in the buffer: yyless(n)
+			 * may give back part of it as well (n counts from the start of yytext) */
+			x->a = lmod(po->a >> 1, I->cur_len + 1);
+		else
+			x->a = I->more_prefix + lmod(po->a, I->cur_len - I->more_prefix + 1);
 		return 1;
 	case SOP_UNPUT:
 		/* yymore() together with yyunput()/yyinput() in one action is not a
@@ -1130,7 +1135,7 @@ int sim_next_op(sim_xop *x)
 		I->n_ops++;
 		I->wrap_stop_in_op = 0;
 		switch (x->code) {
-		case SOP_LESS: I->did_less = 1; I->cur_len = (int) x->a; break;
+		case SOP_LESS: I->did_less = 1; I->cur_len = (int) x->a; if (I->more_prefix > I->cur_len) I->more_prefix = I->cur_len; break;
 		case SOP_UNPUT: case SOP_INPUT: I->did_textop = 1; break;
 		case SOP_MORE: I->prev_more = 1; I->did_more = 1; break;
 		case SOP_REJECT: I->rejected = 1; break;
